@@ -26,7 +26,11 @@ CHECKS = {
              'the while-loop of both simulators, with the GENERATED split_candle / candle_includes_price inside), for EVERY user '
              'strategy: when the matching loop of a minute returns, no active order of the symbol has its price inside what '
              'remains of the candle (C02.minute_no_resting_hit; per chunk minute in the fast simulator: '
-             'C02.chunk_minute_no_resting_hit); the order the sort puts first is the first one the O-L-H-C / O-H-L-C path reaches: '
+             'C02.chunk_minute_no_resting_hit), and NO order that existed at the start of the minute and is still active is left with '
+             'its price inside the minute\'s range, whatever the hooks fired by the fills submitted, cancelled or replaced in '
+             'between (C02.resting_order_never_left_in_range: composition with the frame facts - an existing order keeps its '
+             'price, never becomes active again, never re-enters the registry - proved for every engine step of the strategy '
+             'layer); the order the sort puts first is the first one the O-L-H-C / O-H-L-C path reaches: '
              'after the split at its price every other candidate still lies in the remaining part, so none is jumped over '
              '(C02.sorted_head_first_on_path, incl. flat-bodied candles and prices on open/high/low/close); an order that is not '
              'active never fills (C02.inactive_order_never_fills); no MARKET order stays queued after the strategy step '
@@ -35,9 +39,8 @@ CHECKS = {
              'minute, never before submission / after cancel, no order left unfilled through a unit that contained its price.',
         technique='Lean 4 theorems over the matching loop for every strategy (induction on the loop, sortedness of the insertion sort, path arithmetic) + whole-session correspondence; fill/missed-fill oracle on real traces',
         ref='4 (C02)',
-        note='The composition "an order resting since before the minute is never left with its price in the minute\'s range" needs '
-             'the frame fact that hooks never change the price of an existing order; that fact is covered by the correspondence and '
-             'the oracle, not by a theorem (evidence.unproved).'),
+        note='The composition theorem is for the normal simulator; for the fast simulator only the per-minute loop-return theorem is '
+             'proved (the unsorted re-selection there is known finding C02-F1) - see evidence.unproved.'),
     'C03': dict(
         text='Proof over the accounts model (mirrors FuturesExchange/Order/Position branch by branch, with the GENERATED '
              'estimate_PNL / estimate_average_price inside; tied by step-by-step correspondence with the real objects): one '
